@@ -8,6 +8,8 @@ mp = os.path.join(V, "seeded", "MATRIX.md")
 if os.path.exists(mp):
     for line in open(mp):
         m = re.match(r"\| (C\d+-\w+) \| (C\d+) \| rc=(\d) \| (.*) \|", line)
+        if not m and "| n/a |" in line:
+            continue
         if m:
             matrix.setdefault(m.group(1), []).append((m.group(2), int(m.group(3)), m.group(4).strip()))
 for mf in sorted(glob.glob(os.path.join(V, "seeded", "C*", "meta.json"))):
@@ -16,6 +18,9 @@ for mf in sorted(glob.glob(os.path.join(V, "seeded", "C*", "meta.json"))):
     got = matrix.get(name, [])
     caught = [f"{c} ({cl})" if cl else c for c, rc, cl in got if rc == 1]
     missed = [c for c, rc, cl in got if rc != 1]
+    if m.get("neutralised_by"):
+        rows.append(f"| {name} | {m['change']} | {m['needs_to_manifest']} | behaviour-neutral since repository fix {m['neutralised_by']} | {m.get('check_strengthened_because_of_it') or ''} |")
+        continue
     cell = "; ".join(caught) if caught else ("-" if not m["caught_by_quick_checks"] else ", ".join(m["caught_by_quick_checks"]))
     if missed:
         cell += f" — not by {', '.join(missed)}"
